@@ -802,6 +802,208 @@ impl World for RealComp {
     }
 }
 
+// =============================================================================================
+// World 3: the same token over the library's REAL identity verifier (verify_identity over the real
+// claim-topics-and-issuers registry, identity registry storage and identity-claims contracts; one
+// scripted issuer): "both parties pass identity verification" is then "for each of the two required
+// topics the party's identity holds a claim the issuer confirms".
+
+#[path = "../shared/c15_wrap.rs"]
+mod idw;
+
+#[derive(Clone, Debug, PartialEq, Eq)]
+enum IOp {
+    AddClaim { x: usize, t: u32 },
+    RemoveClaim { x: usize, t: u32 },
+    Answer { t: u32, confirm: bool },
+    Mint { to: usize },
+    Transfer { from: usize, to: usize },
+    TransferFrom { from: usize, to: usize },
+    Forced { from: usize, to: usize },
+}
+
+#[derive(Clone, Debug, PartialEq, Eq, Hash)]
+struct IState {
+    bal: [i128; 2],
+    held: [[bool; 2]; 2], // [account][topic-1]
+    confirm: [bool; 2],
+}
+
+struct RealId;
+
+struct IInst {
+    e: Env,
+    tok: Address,
+    issuer: Address,
+    ids: [Address; 2],
+    u: [Address; 2],
+    spender: Address,
+}
+
+impl RealId {
+    fn exec(&self, i: &IInst, op: &IOp) -> bool {
+        let e = &i.e;
+        let u = |k: usize| i.u[k].clone();
+        let t = i.tok.clone();
+        let (c, f, a): (Address, &str, SVec<Val>) = match op {
+            IOp::AddClaim { x, t } => (
+                i.ids[*x].clone(),
+                "add_claim",
+                (*t, 101u32, i.issuer.clone(), soroban_sdk::Bytes::from_array(e, &[1, *t as u8, 7]), soroban_sdk::Bytes::from_array(e, &[7]), soroban_sdk::String::from_str(e, "uri")).into_val(e),
+            ),
+            IOp::RemoveClaim { x, t } => {
+                let id = view(e, &i.ids[*x], "claim_id", (i.issuer.clone(), *t).into_val(e)).expect("claim_id");
+                (i.ids[*x].clone(), "remove_claim", (soroban_sdk::BytesN::<32>::try_from_val(e, &id).unwrap(),).into_val(e))
+            }
+            IOp::Answer { t, confirm } => (i.issuer.clone(), "set_answer", (*t, if *confirm { 0u32 } else { 1u32 }).into_val(e)),
+            IOp::Mint { to } => (t, "mint", (u(*to), 2i128).into_val(e)),
+            IOp::Transfer { from, to } => (t, "transfer", (u(*from), u(*to), 1i128).into_val(e)),
+            IOp::TransferFrom { from, to } => (t, "transfer_from", (i.spender.clone(), u(*from), u(*to), 1i128).into_val(e)),
+            IOp::Forced { from, to } => (t, "forced_transfer", (u(*from), u(*to), 1i128).into_val(e)),
+        };
+        call_mocked(e, &c, f, a).is_ok()
+    }
+    fn verified(m: &IState, x: usize) -> bool {
+        (0..2).all(|t| m.held[x][t] && m.confirm[t])
+    }
+}
+
+impl World for RealId {
+    type Op = IOp;
+    type Model = IState;
+    type Inst = IInst;
+
+    fn name(&self) -> String {
+        "rwa-token-over-real-identity-verifier".into()
+    }
+    fn seeds(&self) -> usize {
+        2
+    }
+    fn seed_name(&self, s: usize) -> String {
+        ["both accounts hold both claims", "A holds both claims, B only the claim for topic 1"][s].into()
+    }
+    fn fresh(&self, seed: usize) -> (IInst, IState) {
+        let e = envx::mk_env(100);
+        let u = [Address::generate(&e), Address::generate(&e)];
+        let spender = Address::generate(&e);
+        let cti = e.register(idw::CtiWrap, ());
+        let irs = e.register(idw::IrsWrap, ());
+        let verifier = e.register(idw::VerifierWrap, (cti.clone(), irs.clone()));
+        let issuer = e.register(idw::MockIssuer, ());
+        let ids = [e.register(idw::IdentityWrap, ()), e.register(idw::IdentityWrap, ())];
+        let comp = e.register(rwa_wrap::MockCompliance, ());
+        let tok = e.register(rwa_wrap::RwaTok, (comp, verifier));
+        let mut ts: SVec<u32> = SVec::new(&e);
+        for t in [1u32, 2u32] {
+            call_mocked(&e, &cti, "add_claim_topic", (t,).into_val(&e)).expect("topic");
+            ts.push_back(t);
+        }
+        call_mocked(&e, &cti, "add_trusted_issuer", (issuer.clone(), ts).into_val(&e)).expect("issuer");
+        for k in 0..2 {
+            call_mocked(&e, &irs, "add_identity", (u[k].clone(), ids[k].clone()).into_val(&e)).expect("identity");
+        }
+        let i = IInst { e, tok, issuer, ids, u, spender };
+        let mut m = IState { bal: [0; 2], held: [[false; 2]; 2], confirm: [true; 2] };
+        for x in 0..2 {
+            for t in [1u32, 2u32] {
+                assert!(self.exec(&i, &IOp::AddClaim { x, t }));
+                m.held[x][(t - 1) as usize] = true;
+            }
+        }
+        assert!(self.exec(&i, &IOp::Mint { to: 0 }));
+        assert!(self.exec(&i, &IOp::Mint { to: 1 }));
+        m.bal = [2, 2];
+        for k in 0..2 {
+            call_mocked(&i.e, &i.tok, "approve", (i.u[k].clone(), i.spender.clone(), 3i128, 5000u32).into_val(&i.e)).expect("approve");
+        }
+        if seed == 1 {
+            assert!(self.exec(&i, &IOp::RemoveClaim { x: 1, t: 2 }));
+            m.held[1][1] = false;
+        }
+        (i, m)
+    }
+    fn ops(&self, _i: &IInst, m: &IState, _d: usize) -> Vec<IOp> {
+        let mut v = vec![];
+        for x in 0..2 {
+            for t in [1u32, 2u32] {
+                v.push(if m.held[x][(t - 1) as usize] { IOp::RemoveClaim { x, t } } else { IOp::AddClaim { x, t } });
+            }
+        }
+        for t in [1u32, 2u32] {
+            v.push(IOp::Answer { t, confirm: !m.confirm[(t - 1) as usize] });
+        }
+        for (from, to) in [(0, 1), (1, 0)] {
+            v.push(IOp::Mint { to });
+            v.push(IOp::Transfer { from, to });
+            v.push(IOp::TransferFrom { from, to });
+        }
+        v.push(IOp::Forced { from: 0, to: 1 });
+        v
+    }
+    fn kind(&self, op: &IOp) -> String {
+        match op {
+            IOp::AddClaim { .. } | IOp::RemoveClaim { .. } | IOp::Answer { .. } => "env",
+            IOp::Mint { .. } => "mint",
+            IOp::Transfer { .. } => "transfer",
+            IOp::TransferFrom { .. } => "transfer_from",
+            IOp::Forced { .. } => "forced_transfer",
+        }
+        .into()
+    }
+    fn apply(&self, i: &mut IInst, op: &IOp) {
+        self.exec(i, op);
+    }
+    fn step(&self, i: &mut IInst, m: &mut IState, op: &IOp, cx: &mut StepCtx<Self>) -> Result<bool, Violation> {
+        let pre = m.clone();
+        let ok = self.exec(i, op);
+        let v = |x: usize| Self::verified(&pre, x);
+        if !ok {
+            match op {
+                IOp::Mint { to } if !v(*to) => cx.stats.count("#movement refused with an unverified party (real identity verifier)", 1),
+                IOp::Transfer { from, to } | IOp::TransferFrom { from, to } if !(v(*from) && v(*to)) => cx.stats.count("#movement refused with an unverified party (real identity verifier)", 1),
+                _ => {}
+            }
+            return Ok(false);
+        }
+        match op {
+            IOp::AddClaim { x, t } => m.held[*x][(*t - 1) as usize] = true,
+            IOp::RemoveClaim { x, t } => m.held[*x][(*t - 1) as usize] = false,
+            IOp::Answer { t, confirm } => m.confirm[(*t - 1) as usize] = *confirm,
+            IOp::Mint { to } => {
+                ensure!(v(*to), "gate-identity", "mint to {} succeeded although its identity lacks a confirmed claim for a required topic (claims held [account][topic] {:?}, issuer confirms {:?})", ["A", "B"][*to], pre.held, pre.confirm);
+                m.bal[*to] += 2;
+            }
+            IOp::Transfer { from, to } | IOp::TransferFrom { from, to } => {
+                ensure!(
+                    v(*from) && v(*to),
+                    "gate-identity",
+                    "{:?} succeeded although a party's identity lacks a confirmed claim for a required topic (claims held [account][topic] {:?}, issuer confirms {:?})",
+                    op,
+                    pre.held,
+                    pre.confirm
+                );
+                m.bal[*from] -= 1;
+                m.bal[*to] += 1;
+            }
+            IOp::Forced { from, to } => {
+                m.bal[*from] -= 1;
+                m.bal[*to] += 1;
+            }
+        }
+        for k in 0..2 {
+            let b = i128_of(&i.e, view(&i.e, &i.tok, "balance", (i.u[k].clone(),).into_val(&i.e)).map_err(|x| Violation::new("getter", format!("{x:?}")))?);
+            ensure!(b == m.bal[k], "lockstep", "after {:?}: balance({}) = {}, expected {}", op, ["A", "B"][k], b, m.bal[k]);
+        }
+        Ok(true)
+    }
+    fn key(&self, i: &IInst) -> [u8; 32] {
+        envx::storage_digest(&i.e, false)
+    }
+    fn model_digest(&self, m: &IState) -> u64 {
+        vh::engine::dig(m)
+    }
+}
+
 fn main() {
     main_with(
         "C04",
@@ -813,12 +1015,13 @@ fn main() {
             r.world(&Rwa { thorough: th, seed_set: all }, &Bounds::new(tier.pick(2, 3), tier.pick(30, 400)));
             r.world(&Rwa { thorough: th, seed_set: vec![0] }, &Bounds::new(tier.pick(3, 4), tier.pick(30, 400)));
             r.world(&RealComp { thorough: th }, &Bounds::new(tier.pick(5, 6), tier.pick(30, 400)));
+            r.world(&RealId, &Bounds::new(tier.pick(5, 7), tier.pick(30, 400)));
             if let Some(rep) = r.report() {
                 rep.require(
                     &["mint", "transfer", "transfer_from", "forced_transfer", "burn", "recover_balance", "set_address_frozen", "freeze_partial", "unfreeze_partial", "pause", "unpause", "env", "compliance.add_module", "compliance.remove_module"],
                     &["mint", "transfer", "transfer_from", "forced_transfer", "burn", "recover_balance", "freeze_partial", "unfreeze_partial", "pause", "unpause"],
                 );
-                rep.require_counter(&["#movement refused with exactly one of two registered modules denying"]);
+                rep.require_counter(&["#movement refused with exactly one of two registered modules denying", "#movement refused with an unverified party (real identity verifier)"]);
             }
         },
     );
